@@ -898,18 +898,30 @@ pub fn run(tier: Tier) -> i32 {
     }
 
     // (3) the real bridges: operations out, outputs in, views out
-    let flow_alpha = base.clone();
+    // widest level sequence whose product fits: this tier's, then (thorough) the quick tier's,
+    // then ever narrower ones
+    let quick_base = alphabet(Tier::Quick);
+    let fit_flow = |name: &str| -> (Alphabet, Json) {
+        let mut candidates: Vec<(Alphabet, Json)> = vec![(base.clone(), json!(0))];
+        if tier == Tier::Thorough {
+            candidates.push((quick_base.clone(), json!("quick tier's level sequence")));
+        }
+        for k in 1..base.levels.len() {
+            candidates.push((shifted(&base, k), json!(k)));
+        }
+        for (a, label) in &candidates {
+            if Space::count_container(name, &registry, a, 0) <= flow_cap {
+                return (a.clone(), label.clone());
+            }
+        }
+        candidates.pop().unwrap()
+    };
     let flow_cap: u128 = tier.pick(100_000, 1_000_000);
     let mut flow_cases: Vec<(usize, Val, Option<Val>, Wire)> = vec![];
     let cap_list = caps();
     let mut flow_info = serde_json::Map::new();
     for (ci, c) in cap_list.iter().enumerate() {
-        let mut shift = 0;
-        let mut alpha = flow_alpha.clone();
-        while Space::count_container(c.op, &registry, &alpha, 0) > flow_cap && shift + 1 < base.levels.len() {
-            shift += 1;
-            alpha = shifted(&base, shift);
-        }
+        let (alpha, shift) = fit_flow(c.op);
         let ops = Space::of_container(c.op, &registry, &alpha, 0);
         let n_ops = ops.count().min(flow_cap);
         for i in 0..n_ops {
@@ -918,13 +930,10 @@ pub fn run(tier: Tier) -> i32 {
             }
         }
         let mut n_outs = 0;
-        let mut oshift = 0;
+        let mut oshift = json!(0);
         if let Some(o) = c.out {
-            let mut oalpha = flow_alpha.clone();
-            while Space::count_container(o, &registry, &oalpha, 0) > flow_cap && oshift + 1 < base.levels.len() {
-                oshift += 1;
-                oalpha = shifted(&base, oshift);
-            }
+            let (oalpha, os) = fit_flow(o);
+            oshift = os;
             let outs = Space::of_container(o, &registry, &oalpha, 0);
             n_outs = outs.count().min(flow_cap);
             let op0 = ops.nth(0);
